@@ -156,3 +156,19 @@ def pipeline_check(ctx):
              "pipeline_prover_starts_observed": sum(raws[r["id"]]["observed"]["nstarted"] for r in recs)}
     shutil.rmtree(work, ignore_errors=True)
     return stats, violations
+
+
+def tlaps_proof(ctx):
+    """the stage discipline (NoObligationBeforeAcceptance, FilesBeforeProvers, VerdictAfterAllStarted) is PROVED for any number of problems"""
+    import re
+    d = ctx.path("tlaps-pipeline")
+    os.makedirs(d, exist_ok=True)
+    for fn in ("Pipeline.tla", "PipelineProofs.tla"):
+        shutil.copy(os.path.join(V.SPEC, fn), d)
+    r = subprocess.run(["timeout", "1500", "tlapm", "--threads", "8", "--cleanfp", "PipelineProofs.tla"], cwd=d, stdout=subprocess.PIPE, stderr=subprocess.STDOUT, text=True)
+    m = re.search(r"All (\d+) obligations proved", r.stdout)
+    shutil.rmtree(d, ignore_errors=True)
+    if not m:
+        raise ToolError("TLAPS proof PipelineProofs.tla failed:\n" + r.stdout[-1500:])
+    log(f"[C11] TLAPS: all {m.group(1)} obligations of PipelineProofs.tla proved (stage discipline for any number of problems)")
+    return int(m.group(1))
